@@ -1,6 +1,6 @@
+#[path = "../sortkey.rs"]
 mod sortkey;
-mod sql;
-mod value;
+use gverif::sql;
 
 fn main() {
     // Quiet panics: a one-line message on stderr is enough, results carry the outcome class.
